@@ -232,6 +232,44 @@ def run_witness(binpath, w):
             return {"cmd": "%s <%d programs>" % ("/".join(cmds), len(items)), "exit": 0, "stdout": "", "stderr": "",
                     "reproduced": bool(bad_items), "why": "; ".join(bad_items[:5])[:1500], "n_inputs": len(items),
                     "failing_inputs": [items[i] for i, r in enumerate(res) if r][:6]}
+        elif kind == "prelude-reference":
+            # w["input"]: {function: [{"expr": garden expression, "expected": garden literal or None}]}: one program per
+            # function compares every call with the literal the reference implementation gives (None: the call only has
+            # to end without a crash or a timeout)
+            from concurrent.futures import ThreadPoolExecutor
+            groups = sorted(w["input"].items())
+
+            def one(g):
+                fn, cs = g
+                lines = ["fun chk(id: Int, ok: Bool) { if not(ok) { println(\"MISMATCH \" ^ string_repr(id)) } }"]
+                for i, c in enumerate(cs):
+                    if c["expected"] is None:
+                        lines.append("let t%d = %s" % (i, c["expr"]))
+                    else:
+                        lines.append("chk(%d, (%s) == (%s))" % (i, c["expr"], c["expected"]))
+                lines.append("println(\"END\")")
+                f = os.path.join(tmpdir, "ref_%s.gdn" % re.sub(r"\W+", "_", fn))
+                open(f, "w", encoding="utf-8").write("\n".join(lines) + "\n")
+                try:
+                    p = subprocess.run([binpath, "run", f], capture_output=True, text=True, timeout=w.get("timeout_each", 60), cwd=tmpdir, stdin=subprocess.DEVNULL)
+                except subprocess.TimeoutExpired:
+                    return [(fn, "does not finish within %d s (first call: %s)" % (w.get("timeout_each", 60), cs[0]["expr"]), cs[0]["expr"])]
+                bad = []
+                for ln in p.stdout.split("\n"):
+                    if ln.startswith("MISMATCH "):
+                        c = cs[int(ln.split()[1])]
+                        bad.append((fn, "%s is not %s" % (c["expr"], c["expected"]), c["expr"]))
+                if p.returncode == 101 or "panicked at" in p.stderr:
+                    bad.append((fn, "panicked: " + (p.stderr.strip().splitlines() or [""])[0][:160], ""))
+                elif "END" not in p.stdout:
+                    bad.append((fn, "stopped early: " + (p.stdout + p.stderr).strip()[-240:], ""))
+                return bad
+            with ThreadPoolExecutor(max_workers=8) as ex:
+                res = [b for r in ex.map(one, groups) for b in r]
+            return {"cmd": "run <%d programs, %d calls>" % (len(groups), sum(len(c) for _f, c in groups)), "exit": 0, "stdout": "", "stderr": "",
+                    "reproduced": bool(res), "why": "; ".join("%s: %s" % (a, b) for (a, b, _c) in res[:8])[:1800],
+                    "n_inputs": sum(len(c) for _f, c in groups), "failing_inputs": [c for (_a, _b, c) in res if c][:12],
+                    "failures": [[a, b] for (a, b, _c) in res][:200]}
         elif kind == "check-matrix":
             # a list of small programs, each with the verdict `garden check` must give
             # (expect_error: True = at least one error diagnostic, False = none)
